@@ -641,6 +641,13 @@ impl Live {
                 } else {
                     None
                 };
+                // (a rejected op may already have created the default action)
+                self.single = None;
+                self.multi = None;
+                if let Some(o) = self.owner.take() {
+                    o.cleanup();
+                    o.unset();
+                }
                 self.kind = kind;
                 self.v0 = v0;
                 self.started = true;
@@ -1139,9 +1146,20 @@ fn gen_random_single(g: &mut Gen, rng: &mut Rng) {
     }
     let mut sim = Sim::default();
     let max_total = rng.range(1, 8);
-    let max_overlap = rng.range(1, 4);
+    let max_overlap = *rng.pick(&[1, 2, 3, 4, 4, 4]);
     let len = rng.range(4, 40);
     let poll_bias = rng.range(1, 6);
+    // often start with a burst of overlapping dispatches
+    if rng.chance(1, 2) {
+        for _ in 0..max_overlap.min(max_total) {
+            l.push(format!("dispatch {}", rng.range(1, 99)));
+            sim.dispatch();
+            if rng.chance(1, 3) {
+                l.push("idle".into());
+                sim.idle();
+            }
+        }
+    }
     for _ in 0..len {
         let unfinished = sim.unfinished();
         let c = rng.below(20 + 3 * poll_bias);
